@@ -334,6 +334,7 @@ func C11(ctx *core.Ctx) {
 	c11InheritedMembers(ctx, cc)
 	c11ModelReadOnly(ctx, cc)
 	c11ExitStatus(ctx, cc)
+	c11BothElementTypes(ctx, cc)
 	c11PerFileInField(ctx, cc)
 	ctx.Rule("C11.R18", "an emitted file holds this run's text only: a file opened with O_CREATE for writing is opened with O_TRUNC (a shorter descriptor written over a longer one of an earlier run is not well-formed)", 1)
 	if entry := cc.FnOpt("compiler", "Compile"); entry != nil {
@@ -374,19 +375,42 @@ func C11(ctx *core.Ctx) {
 					continue
 				}
 				n++
-				// a deferred closure calling recover() dominates the call
-				ok := false
-				ssax.Instrs(fn, func(in ssa.Instruction) {
-					d, isD := in.(*ssa.Defer)
-					if !isD {
-						return
-					}
-					for _, cl := range funcValues(d.Call.Value) {
-						if len(ssax.CallsTo(cl, "builtin.recover")) > 0 && ssax.Dominates(in, c.Instr.(ssa.Instruction)) {
-							ok = true
+				// a deferred closure calling recover() dominates the call — in this function,
+				// or (the call moved into a helper such as processFile) at every call site
+				// of this function in package main
+				underRecover := func(g *ssa.Function, at ssa.Instruction) bool {
+					found := false
+					ssax.Instrs(g, func(in ssa.Instruction) {
+						d, isD := in.(*ssa.Defer)
+						if !isD {
+							return
+						}
+						for _, cl := range funcValues(d.Call.Value) {
+							if len(ssax.CallsTo(cl, "builtin.recover")) > 0 && ssax.Dominates(in, at) {
+								found = true
+							}
+						}
+					})
+					return found
+				}
+				ok := underRecover(fn, c.Instr.(ssa.Instruction))
+				if !ok {
+					sites, all := 0, true
+					for _, g := range cc.Fns {
+						if g.Pkg != mainPkg {
+							continue
+						}
+						for _, c2 := range ssax.Calls(g) {
+							if c2.Static == fn {
+								sites++
+								if !underRecover(g, c2.Instr.(ssa.Instruction)) {
+									all = false
+								}
+							}
 						}
 					}
-				})
+					ok = sites > 0 && all
+				}
 				ctx.Check(ok, "C11.R1", QName(fn)+" › "+QName(target)+" runs under a deferred recover", cc.IPos(c.Instr), "defer func(){ recover() }() dominates the call", "a panic in the compiler escapes to the runtime: the user sees a Go stack trace instead of a diagnostic")
 			}
 		}
